@@ -111,6 +111,20 @@ def _task(args):
                 want = expect(p)
                 if got != want:
                     vios.append(mkv(pgn, p, nbytes, got, want, "public path (message.id)"))
+                # and frame by frame through the frame-level entry points on the same long-lived decoder
+                fastp = ds[0].fast
+                if fastp or nbytes <= 8:
+                    for ename, fn in wire.entry_points(pgn, p.to_bytes(nbytes, "little"), fastp, prio=3, src=9, dst=255, seq=(st["binding"] % 8)).items():
+                        if ename in ("actisense", "plain_combined"):
+                            continue
+                        try:
+                            m = fn(dec)
+                            g2 = None if m is None else m.id
+                        except Exception:  # noqa: BLE001
+                            continue
+                        st["binding"] += 1
+                        if g2 != want and g2 is not None:
+                            vios.append(mkv(pgn, p, nbytes, g2, want, f"public path through {ename} (message.id)"))
     saved = patch(pgn, ds)
     via = "recorders around the per-definition functions"
     try:
